@@ -359,12 +359,24 @@ func fbb.(*Message).ReadFrom(m, r) (err)
 # the header length byte equals the actual header length and the offset is the
 # one that was requested.  C17: the progress count is published atomically.
 func fbb.(*Session).readCompressed(s, rw, p) (err)
-  props C03 C04 C17
+  props C03 C04 C17 C01 C05
   requires sess: SessOK(s) && rw != nil && p != nil
   requires size-nonneg: p.compressedSize >= 0
   # gPayloadBytes: payload bytes read from the wire inside STX blocks
   call bufio.(*Reader).ReadByte#4 set gPayloadBytes := gPayloadBytes + ite($r1 == nil, 1, 0)
-  at return requires verdict-block: $r0 == nil ==> ourChecksum == 0 && p.compressedSize == gPayloadBytes && headerLength == actualHeaderLength && offset == p.offset
+  # the header length byte (second byte on the wire) must equal the number of bytes actually
+  # read for the title and the offset, each with its NUL; the offset is the decimal value of
+  # the offset field as read
+  call bufio.(*Reader).ReadByte#1 set gHdrLenByte := $r0
+  call bufio.(*Reader).ReadString#0 set gTitleBytes := len($r0)
+  call bufio.(*Reader).ReadString#1 set gOffsetBytes := len($r0)
+  call bufio.(*Reader).ReadString#1 set gOffsetField := $r0
+  call strconv.Atoi requires offset-field: same($0, gOffsetField[0:len(gOffsetField)-1])
+  call strconv.Atoi set gOffsetValue := $r0
+  # ... and a well-formed header is not refused: the mismatch errors are returned only for a real mismatch
+  at return#7 requires refuses-only-bad-length [C01 C05]: gHdrLenByte != gTitleBytes + gOffsetBytes
+  at return#9 requires refuses-only-bad-offset [C01 C05]: gOffsetValue != p.offset
+  at return requires verdict-block: $r0 == nil ==> ourChecksum == 0 && p.compressedSize == gPayloadBytes && gHdrLenByte == gTitleBytes + gOffsetBytes && gOffsetValue == p.offset
   at return requires every-byte-kept: $r0 == nil ==> buf.len == gPayloadBytes
   ensures payload: err == nil ==> len(p.compressedData) == p.compressedSize
   loop 0 invariant count: received == buf.len && buf.len == gPayloadBytes && buf.len >= 0 && 0 <= ourChecksum && ourChecksum < 256
@@ -376,6 +388,11 @@ func fbb.(*Session).readCompressed(s, rw, p) (err)
 #   from the requested offset in order; then EOT and the two's complement of the payload
 #   byte sum, written only when all data is out; nil is returned only after the final flush.
 #   gRemainingOK: rely/guarantee for the status goroutine: 0 <= remaining <= len(data).
+ghost var gHdrLenByte int
+ghost var gTitleBytes int
+ghost var gOffsetBytes int
+ghost var gOffsetField string
+ghost var gOffsetValue int
 ghost var gPayloadSum int
 ghost var gEOTWritten bool
 ghost var gFlushErr error
